@@ -79,4 +79,16 @@ PROPS = {
         explanation="Theorems C15_* hold for all argument tuples; figures describe the differential run.",
         trusted_base=TB_COMMON, assumptions=ASSUME_COMMON,
     ),
+    "C16": dict(
+        cases_mod="CasesCron", check_fn="check_C16",
+        rule="expressions generated from the documented grammar (every item form, values over each field's range incl. weekday 7, names in random letter case, leading zeros, lists of 1-3 items, separators space/tab/NBSP/EM SPACE, leading/trailing white space) plus 3-6 random single-edit mutations (delete / insert / substitute over digits * , - / + letters, white space, multi-byte characters) of each, double mutations, and a fixed list of historical edge cases. Observed: Ok/Err and, through Debug, the five value sets (sorted). Non-trivial: every case.",
+        explanation="Theorems C16_* hold for every text; figures describe the differential run.",
+        trusted_base=TB_COMMON + ["hook H2-free: value sets are read from the derived Debug output of CronSchedule"], assumptions=ASSUME_COMMON,
+    ),
+    "C17": dict(
+        cases_mod="CasesCron", check_fn="check_C17",
+        rule="satisfiable schedules (fixed set incl. 29 Feb, day 31, 13th-or-Friday, weekday 7, plus grammar-generated ones filtered for satisfiability) x second-granular start instants (month ends, leap days, year ends, 23:59:59.x) x histories of 1-6 (advance clock, next) steps with advances from {0,1,59,60,61 s, 1 h, 1 d - 1 s, 1 d, 31 d, 40 d, 400 d} and random; a clone taken mid-history must continue identically. Clock pinned through hook H1. Non-trivial: histories of more than one call.",
+        explanation="Soundness/least-match theorems are stated about the executable model of the iterator (see props/C17.v for what is proved and what is only checked by the run); figures describe the differential run.",
+        trusted_base=TB_COMMON + ["hook H1 (cargo feature astrolabe_verif): thread-local clock pin read by CronSchedule::next"], assumptions=ASSUME_COMMON + ["the wall clock is a parameter of the model; the pinned clock replaces DateTime::now() inside next()"],
+    ),
 }
